@@ -131,17 +131,17 @@ char *str_oct2char( char *str0, int *len )
       {
       if (str[k] == '\\')
          {
-         if (str[k+1] == '\\') 
+         if ((k+1 < *len)&&(str[k+1] == '\\'))
             {
             str[i++] = str[k];
             k += 1;
             }
-         else if (str[k+1] == 'n') 
+         else if ((k+1 < *len)&&(str[k+1] == 'n'))
             {
             str[i++] = '\012';
             k += 1;
             }
-         else
+         else if ((k+3 < *len)&&(str[k+1] >= '0')&&(str[k+1] <= '7'))
             {
             strncpy( buf, str+k+1, 3 );
             buf[3] = '\0';
@@ -149,6 +149,11 @@ char *str_oct2char( char *str0, int *len )
             str[i++] = c;
 
             k += 3;
+            }
+         else
+            {
+            /* not an escape sequence: keep the backslash */
+            str[i++] = str[k];
             }
          }
       else
